@@ -1,38 +1,91 @@
-(* The cron parameter of the Loader model instantiated by the Cron model (coq/Cron/Model.v, C09): the theorems
-   of C13 then speak about `Cron.parse` instead of an arbitrary verdict function. *)
-From Coq Require Import List ZArith String.
+(* The cron parameter of the Loader model instantiated by the Cron model (coq/Cron/Model.v, C09).  The one
+   hypothesis of the C13 no-panic theorems - the cron library panics only on a bare TZ= / CRON_TZ= prefix - is
+   PROVED for Cron.parse here, so that the instantiated theorems carry no hypothesis at all. *)
+From Coq Require Import List ZArith String Ascii Bool.
 Import ListNotations.
 From BD.Cron Require Model.
-From BD.Loader Require Import Str Model Decode Proofs.
+From BD.Loader Require Import Str Model Decode Proofs DecodeProofs LoadProofs.
+
+Module C := BD.Cron.Model.
 
 Definition cron_of_parse (s : string) : cronv :=
-  match BD.Cron.Model.parse s with
-  | BD.Cron.Model.PPanic => CronPanic
-  | BD.Cron.Model.PErr => CronErr
-  | BD.Cron.Model.POk _ => CronOk
+  match C.parse s with
+  | C.PPanic => CronPanic
+  | C.PErr => CronErr
+  | C.POk _ => CronOk
   end.
 
 Definition verdict_code (s : string) : nat := match cron_of_parse s with CronOk => 0 | CronErr => 1 | CronPanic => 2 end.
 
-(* build with the modelled cron parser never panics outside the excluded classes; the schedule premise now reads:
-   no schedule string is a bare TZ= / CRON_TZ= prefix (on which Cron.parse = PPanic) *)
+Lemma prefixb_prefix : forall p s, prefixb p s = String.prefix p s.
+Proof.
+  induction p as [|a p IH]; intros s; [destruct s; reflexivity|].
+  destruct s as [|b s]; [reflexivity|]. simpl. unfold aeqb. rewrite IH.
+  destruct (ascii_dec a b) as [->|Hn].
+  - rewrite Ascii.eqb_refl. reflexivity.
+  - apply Ascii.eqb_neq in Hn. rewrite Hn. reflexivity.
+Qed.
+
+Lemma index_none_contains : forall c s k, C.index_of_char c (list_ascii_of_string s) k = None -> contains_char c s = false.
+Proof.
+  intros c. induction s as [|x s IH]; intros k H; simpl in *; [reflexivity|].
+  unfold C.aeq in H. unfold contains_char in *. simpl. unfold aeqb.
+  rewrite Ascii.eqb_sym. destruct (Ascii.eqb x c); [discriminate|]. simpl. eapply IH; eauto.
+Qed.
+
+Lemma parse_fields_np : forall s off, C.parse_fields s off <> C.PPanic.
+Proof.
+  intros s off. unfold C.parse_fields. destruct s as [|c r]; [discriminate|].
+  destruct (C.aeq c "@"%char); [discriminate|].
+  destruct (C.fields (c :: r)) as [|f1 [|f2 [|f3 [|f4 [|f5 [|f6 l]]]]]]; try discriminate.
+  destruct (C.get_field f1 C.b_minutes); try discriminate.
+  destruct (C.get_field f2 C.b_hours); try discriminate.
+  destruct (C.get_field f3 C.b_dom); try discriminate.
+  destruct (C.get_field f4 C.b_months); try discriminate.
+  destruct (C.get_field f5 C.b_dow); discriminate.
+Qed.
+
+(* Cron.parse panics only on a spec that is a time zone prefix without a following space *)
+Theorem cron_parse_panic_tz : forall s, cron_of_parse s = CronPanic -> tz_only s = true.
+Proof.
+  intros s H. unfold cron_of_parse in H. destruct (C.parse s) eqn:E; try discriminate. clear H.
+  unfold C.parse in E. destruct (list_ascii_of_string s) as [|c0 r0] eqn:El; [discriminate|]. rewrite <- El in E.
+  destruct (C.has_prefix "TZ=" (list_ascii_of_string s) || C.has_prefix "CRON_TZ=" (list_ascii_of_string s)) eqn:Ep.
+  - unfold tz_only. unfold C.has_prefix in Ep. rewrite string_of_list_ascii_of_string in Ep.
+    rewrite !prefixb_prefix, Ep. simpl.
+    destruct (C.index_of_char " "%char (list_ascii_of_string s) 0) as [i|] eqn:Ei.
+    + destruct (C.index_of_char "="%char (list_ascii_of_string s) 0); [|discriminate].
+      destruct (C.zone_offset _); [|discriminate]. exfalso. eapply parse_fields_np; eauto.
+    + rewrite (index_none_contains c_space s 0 Ei). reflexivity.
+  - exfalso. eapply parse_fields_np; eauto.
+Qed.
+
+(* C13, no hypothesis left: with the modelled cron parser, loading any tree never panics *)
+Theorem load_no_panic_cron :
+  forall (sig_ok : string -> bool) (tokenize : string -> list (string * string)) (sh : string -> option string)
+         (o : opts) (root : yv) (e : envt),
+  outcome (load_tree cron_of_parse sig_ok tokenize sh o root e) <> Panic.
+Proof. intros. apply load_no_panic. exact cron_parse_panic_tz. Qed.
+
 Theorem build_no_panic_cron :
   forall (sig_ok : string -> bool) (tokenize : string -> list (string * string)) (sh : string -> option string)
          (o : opts) (d : definition) (base : list string),
-  no_nil d = true -> sched_safe cron_of_parse (d_schedule d) = true ->
+  no_nil d = true ->
   forall e : envt, outcome (build cron_of_parse sig_ok tokenize sh o d base e) <> Panic.
-Proof. intros. apply build_no_panic_partial; assumption. Qed.
+Proof. intros. apply build_no_panic; [exact cron_parse_panic_tz | assumption]. Qed.
 
+(* every schedule expression of an accepted DAG is parsed by Cron.parse *)
 Theorem build_schedules_parse_cron :
   forall (sig_ok : string -> bool) (tokenize : string -> list (string * string)) (sh : string -> option string)
          (o : opts) (d : definition) (base : list string) (e : envt) (g : dag),
   outcome (build cron_of_parse sig_ok tokenize sh o d base e) = Ok g ->
   forall x, In x (g_schedule g ++ g_stopSchedule g ++ g_restartSchedule g) ->
-  exists sp, BD.Cron.Model.parse x = BD.Cron.Model.POk sp.
+  exists sp, C.parse x = C.POk sp.
 Proof.
   intros sig_ok tokenize sh o d base e g H x Hx.
   destruct (build_wf cron_of_parse sig_ok tokenize sh o d base e g H) as (_ & Ha & Hb & Hc).
   assert (Hok : cron_ok cron_of_parse x = true).
   { rewrite !in_app_iff in Hx. rewrite forallb_forall in Ha, Hb, Hc. destruct Hx as [Hx|[Hx|Hx]]; auto. }
-  unfold cron_ok, cron_of_parse in Hok. destruct (BD.Cron.Model.parse x) as [| |sp]; try discriminate. eauto.
+  unfold cron_ok, parseCron in Hok. destruct (tz_only x); [discriminate|].
+  unfold cron_of_parse in Hok. destruct (C.parse x) as [| |sp]; try discriminate. eauto.
 Qed.
